@@ -60,6 +60,41 @@ macro_rules! corpus {
 #[derive(Serialize, Schema)] enum GenE<T> { None, Some(T), Pair(T, T), Rec { inner: Vec<T> } }
 #[derive(Serialize, Schema)] #[allow(non_camel_case_types)] struct r#RawName { plain: u8 }
 
+#[derive(Serialize, serde::Deserialize)] struct DUnitS;
+#[derive(Serialize, serde::Deserialize)] struct DNewS(u32);
+#[derive(Serialize, serde::Deserialize)] struct DTupS(u8, String, Option<i16>);
+#[derive(Serialize, serde::Deserialize)] struct DTup0();
+#[derive(Serialize, serde::Deserialize)] struct DNamed0 {}
+#[derive(Serialize, serde::Deserialize)] struct DPoint { x: i32, y: i32 }
+#[derive(Serialize, serde::Deserialize)] struct DGenS<T, U> { t: T, u: Vec<U>, both: (T, U) }
+#[derive(Serialize, serde::Deserialize)] struct DNested { p: DPoint, l: Vec<DPoint>, e: DAllKinds, o: Option<DNewS> }
+#[derive(Serialize, serde::Deserialize)] enum DAllKinds { A, B(u64), C(u8, bool), D { a: i8, b: String }, E(), F {} }
+#[derive(Serialize, serde::Deserialize)] enum DGenE<T> { None, Some(T), Pair(T, T), Rec { inner: Vec<T> } }
+impl Samples for DUnitS { fn max_sample() -> Self { DUnitS } fn rand(_: &mut Rng) -> Self { DUnitS } }
+impl Samples for DNewS { fn max_sample() -> Self { DNewS(u32::MAX) } fn rand(r: &mut Rng) -> Self { DNewS(u32::rand(r)) } }
+impl Samples for DTupS { fn max_sample() -> Self { DTupS(255, String::max_sample(), Some(i16::MIN)) } fn rand(r: &mut Rng) -> Self { DTupS(u8::rand(r), String::rand(r), Option::rand(r)) } }
+impl Samples for DTup0 { fn max_sample() -> Self { DTup0() } fn rand(_: &mut Rng) -> Self { DTup0() } }
+impl Samples for DNamed0 { fn max_sample() -> Self { DNamed0 {} } fn rand(_: &mut Rng) -> Self { DNamed0 {} } }
+impl Samples for DPoint { fn max_sample() -> Self { DPoint { x: i32::MIN, y: i32::MAX } } fn rand(r: &mut Rng) -> Self { DPoint { x: i32::rand(r), y: i32::rand(r) } } }
+impl<T: Samples, U: Samples> Samples for DGenS<T, U> {
+    fn max_sample() -> Self { DGenS { t: T::max_sample(), u: Vec::max_sample(), both: (T::max_sample(), U::max_sample()) } }
+    fn rand(r: &mut Rng) -> Self { DGenS { t: T::rand(r), u: Vec::rand(r), both: (T::rand(r), U::rand(r)) } }
+}
+impl Samples for DAllKinds {
+    fn max_sample() -> Self { DAllKinds::D { a: -1, b: String::max_sample() } }
+    fn rand(r: &mut Rng) -> Self { let mut c = Self::candidates(); let k = r.below(c.len() as u64) as usize; c.swap_remove(k) }
+    fn candidates() -> Vec<Self> { vec![DAllKinds::A, DAllKinds::B(u64::MAX), DAllKinds::C(7, true), DAllKinds::D { a: -128, b: "x".into() }, DAllKinds::E(), DAllKinds::F {}] }
+}
+impl Samples for DNested {
+    fn max_sample() -> Self { DNested { p: DPoint::max_sample(), l: Vec::max_sample(), e: DAllKinds::max_sample(), o: Some(DNewS(1)) } }
+    fn rand(r: &mut Rng) -> Self { DNested { p: DPoint::rand(r), l: Vec::rand(r), e: DAllKinds::rand(r), o: if r.chance(1, 2) { None } else { Some(DNewS::rand(r)) } } }
+}
+impl<T: Samples> Samples for DGenE<T> {
+    fn max_sample() -> Self { DGenE::Rec { inner: Vec::max_sample() } }
+    fn rand(r: &mut Rng) -> Self { let mut c = Self::candidates(); let k = r.below(c.len() as u64) as usize; c.swap_remove(k) }
+    fn candidates() -> Vec<Self> { vec![DGenE::None, DGenE::Some(T::max_sample()), DGenE::Pair(T::max_sample(), T::max_sample()), DGenE::Rec { inner: vec![] }, DGenE::Rec { inner: Vec::max_sample() }] }
+}
+
 impl Samples for UnitS { fn max_sample() -> Self { UnitS } fn rand(_: &mut Rng) -> Self { UnitS } }
 impl Samples for NewS { fn max_sample() -> Self { NewS(u32::MAX) } fn rand(r: &mut Rng) -> Self { NewS(u32::rand(r)) } }
 impl Samples for TupS { fn max_sample() -> Self { TupS(255, String::max_sample(), Some(i16::MIN)) } fn rand(r: &mut Rng) -> Self { TupS(u8::rand(r), String::rand(r), Option::rand(r)) } }
@@ -128,7 +163,108 @@ pub fn for_each_corpus_type(r: &mut Rng, n: usize, out: &mut Vec<String>, dynami
     crate::generated_schema::generated_schema_lines(r, n, out, dynamic);
 }
 
-pub fn eval(_ctx: &mut Ctx, op: &str, _args: &[Sexp]) -> Option<String> {
+// ------------------------------------------------------------------ real serde-derive / std decode glue (C01)
+/// decode `bytes ++ [0xAA]` as the concrete type through every decode entry point and re-encode
+pub type RealFn = (fn(&[u8]) -> Result<Vec<u8>, String>, fn(&mut Rng, usize, &mut Vec<String>, usize));
+
+fn real_decode<T: serde::de::DeserializeOwned + Serialize>(bytes: &[u8]) -> Result<Vec<u8>, String> {
+    let mut ext = bytes.to_vec();
+    ext.push(0xAA);
+    let (v, rest) = postcard::take_from_bytes::<T>(&ext).map_err(|e| format!("take_from_bytes: {:?}", e))?;
+    if rest != [0xAA] {
+        return Err("take_from_bytes did not hand back exactly the bytes that follow the message".into());
+    }
+    let out = postcard::to_allocvec(&v).map_err(|e| format!("re-encode: {:?}", e))?;
+    let v2 = postcard::from_bytes::<T>(bytes).map_err(|e| format!("from_bytes: {:?}", e))?;
+    if postcard::to_allocvec(&v2).ok().as_ref() != Some(&out) {
+        return Err("from_bytes and take_from_bytes give different values".into());
+    }
+    let mut scratch = vec![0u8; bytes.len() + 8];
+    let rd = crate::ops_io::SchedReader { data: ext.clone(), pos: 0, fault: None, rng: Rng::new(7), whole: false, one: false };
+    let (v3, (rd, _)) = postcard::from_io::<T, _>((rd, &mut scratch[..])).map_err(|e| format!("from_io: {:?}", e))?;
+    if rd.pos != bytes.len() || postcard::to_allocvec(&v3).ok().as_ref() != Some(&out) {
+        return Err("from_io consumed a different number of bytes or gave a different value".into());
+    }
+    Ok(out)
+}
+
+fn real_lines<T: serde::de::DeserializeOwned + Serialize + Samples>(r: &mut Rng, nrand: usize, out: &mut Vec<String>, idx: usize) {
+    let mut vals = T::candidates();
+    if !vals.is_empty() {
+        for _ in 0..nrand {
+            vals.push(T::rand(r));
+        }
+    }
+    for v in &vals {
+        if let (Ok(ct), Ok(bytes)) = (record(v), postcard::to_allocvec(v)) {
+            if bytes.len() <= 4000 {
+                out.push(format!("realrt {} {} {}", idx, ct, hex(&bytes)));
+            }
+        }
+    }
+}
+
+pub fn real_fn<T: serde::de::DeserializeOwned + Serialize + Samples>() -> RealFn {
+    (real_decode::<T>, real_lines::<T>)
+}
+
+macro_rules! reals {
+    ($($t:ty),* $(,)?) => { vec![$( real_fn::<$t>() ),*] };
+}
+
+/// concrete owned Rust types decoded through REAL serde / serde-derive Deserialize impls
+pub fn real_fns() -> Vec<RealFn> {
+    let mut v: Vec<RealFn> = reals!(
+        u8, u16, u32, u64, u128, i8, i16, i32, i64, i128, bool, f32, f64, char, (), String, std::path::PathBuf,
+        NonZeroU8, NonZeroU16, NonZeroU32, NonZeroU64, NonZeroU128, NonZeroI8, NonZeroI16, NonZeroI32, NonZeroI64, NonZeroI128,
+        Option<u16>, Option<Option<String>>, Option<()>, Result<u8, String>, Result<(), Vec<u8>>, Result<Option<i64>, (u8, u8)>,
+        Vec<u8>, Vec<Option<u16>>, Vec<Vec<i32>>, Vec<(u8, String)>, Vec<()>,
+        (u8,), (u8, i16), (u8, i16, String), (bool, char, f32, f64), (u8, u8, u8, u8, u128), ((), Option<u8>, (u8,), [u8; 2], String, i128),
+        [u8; 0], [u8; 1], [u8; 3], [u16; 32], [String; 2], [[i8; 2]; 2], [(u8, bool); 3],
+        // (hash-based containers are left out: their iteration order differs between two decoded instances,
+        // so value identity cannot be checked by re-encoding)
+        BTreeSet<u32>, BTreeSet<(u8, i8)>, BTreeMap<String, u32>, BTreeMap<u16, String>, BTreeMap<String, BTreeMap<String, i8>>,
+        Range<u16>, RangeInclusive<i64>, RangeFrom<u8>, RangeTo<char>,
+        heapless::Vec<u8, 4>, heapless::Vec<String, 2>, heapless::String<8>, heapless08::Vec<u8, 4>, heapless08::String<8>,
+        uuid::Uuid, chrono::DateTime<chrono::Utc>, chrono::DateTime<chrono::FixedOffset>,
+        nalgebra::SMatrix<f32, 2, 2>, nalgebra::SMatrix<u8, 2, 3>,
+        postcard_schema::key::Key, OwnedDataModelType, Vec<OwnedDataModelType>,
+        DUnitS, DNewS, DTupS, DTup0, DNamed0, DPoint, DGenS<u8, String>, DNested, DAllKinds, DGenE<DPoint>, DGenE<DGenE<String>>, Vec<DAllKinds>, Option<DNested>,
+    );
+    v.extend(crate::generated_schema::generated_real_fns());
+    v
+}
+
+pub fn gen_real(r: &mut Rng, thorough: bool, out: &mut Vec<String>) {
+    let n = if thorough { 40 } else { 4 };
+    for (i, (_, lines)) in real_fns().iter().enumerate() {
+        lines(r, n, out, i);
+    }
+}
+
+pub fn eval(ctx: &mut Ctx, op: &str, args: &[Sexp]) -> Option<String> {
+    if op == "realrt" {
+        let idx: usize = args.first()?.atom()?.parse().ok()?;
+        let bytes = crate::sexp::unhex(args.get(2)?.atom()?)?;
+        let fns = real_fns();
+        let (dec, _) = fns.get(idx)?;
+        return Some(match crate::core_ops::guard(|| dec(&bytes)) {
+            Err(()) => {
+                ctx.oracle_fail("panic while decoding a concrete Rust type".into());
+                "FAIL panic".into()
+            }
+            Ok(Err(e)) => {
+                ctx.oracle_fail(format!("round trip through the real Deserialize impl failed: {}", e));
+                format!("FAIL {}", e)
+            }
+            Ok(Ok(out)) => {
+                if out != bytes {
+                    ctx.oracle_fail("decoding and re-encoding a concrete Rust value gives different bytes".into());
+                }
+                format!("ok {}", hex(&out))
+            }
+        });
+    }
     if op != "conf" {
         return None;
     }
